@@ -160,6 +160,9 @@ type C08Direct struct {
 	// CancelAt, when present: per batch the number of organisms after which the context of that call reports cancellation
 	// (-1 never). The call then returns the context's error; the organisms it did not reach are handed to a further call.
 	CancelAt []int `json:"cancel_at,omitempty"`
+	// Fit, when present: the fitness every arriving organism already carries (evaluated before it is speciated); the
+	// representative of a species is its first organism, however fit the other members are
+	Fit []float64 `json:"fitness,omitempty"`
 }
 
 // pollCtx reports cancellation from the (left+1)-th time its Done channel is asked for (speciate polls once per organism).
@@ -265,6 +268,11 @@ func GenC08Direct() *rapid.Generator[C08Direct] {
 		if c.Thr <= 0 {
 			c.Thr = 1e-3
 		}
+		if rapid.IntRange(0, 2).Draw(t, "evaluated arrivals") == 0 {
+			for range c.Order {
+				c.Fit = append(c.Fit, float64(rapid.IntRange(0, 9).Draw(t, "fitness")))
+			}
+		}
 		return c
 	})
 }
@@ -279,7 +287,13 @@ func CheckC08Direct(c C08Direct, rec *Rec) error {
 		s := c.Family[idx]
 		s.Id = i
 		org, _ := genetics.NewOrganism(0, s.Build(), 1)
+		if i < len(c.Fit) {
+			org.Fitness = c.Fit[i]
+		}
 		arrivals = append(arrivals, org)
+	}
+	if len(c.Fit) > 0 {
+		rec.Class("arrivals carry fitness values")
 	}
 	at := 0
 	removed := map[int][]*genetics.Species{}
